@@ -96,12 +96,13 @@ func (i *MImport) spec() string {
 }
 
 type MDecl struct {
-	Tok   string // func | var | const | type
-	Paren bool
-	Doc   []string // plain comment lines
-	Purge bool     // //gopherjs:purge on the whole declaration (overlay side only)
-	Specs []*MSpec
-	Iota  bool // const group: first spec `= iota + 100`, the others repeat implicitly
+	Tok      string // func | var | const | type
+	Paren    bool
+	Doc      []string // plain comment lines
+	Purge    bool     // //gopherjs:purge on the whole declaration (overlay side only)
+	Specs    []*MSpec
+	Iota     bool   // const group: first spec `= iota + 100`, the others repeat implicitly
+	IotaType string // declared type of the first spec of an Iota group ("" = untyped)
 }
 
 type MSpec struct {
@@ -319,6 +320,8 @@ func (es *ESide) typeSpecText() string {
 	name := es.Ent.Name
 	tag := "`" + es.Marker + "`"
 	switch es.TypeKind {
+	case "int":
+		return name + " int"
 	case "iface":
 		return fmt.Sprintf("%s interface{ M%s() }", name, es.Marker)
 	case "alias":
@@ -363,7 +366,7 @@ func (es *ESide) noValueType() string { return "struct{ F int `" + es.Marker + "
 
 // specText renders a value spec (without keyword). names: "" entries are rendered as `_`
 // (only used by the expected rendering of Call specs), skip: sides left out entirely.
-func specText(tok string, sp *MSpec, keep func(*ESide) bool, iotaFirst bool, iotaRepeat bool) string {
+func specText(tok string, sp *MSpec, keep func(*ESide) bool, iotaFirst bool, iotaRepeat bool, iotaType ...string) string {
 	if sp.Call {
 		var names []string
 		any := false
@@ -400,6 +403,9 @@ func specText(tok string, sp *MSpec, keep func(*ESide) bool, iotaFirst bool, iot
 	first := sp.Sides[0]
 	switch {
 	case iotaFirst:
+		if len(iotaType) > 0 && iotaType[0] != "" {
+			return names[0] + " " + iotaType[0] + " = iota + 100"
+		}
 		return names[0] + " = iota + 100"
 	case iotaRepeat:
 		return names[0]
@@ -447,7 +453,7 @@ func declText(d *MDecl) string {
 		if d.Tok == "type" {
 			return sp.Sides[0].typeSpecText()
 		}
-		return specText(d.Tok, sp, all, d.Iota && i == 0, d.Iota && i > 0)
+		return specText(d.Tok, sp, all, d.Iota && i == 0, d.Iota && i > 0, d.IotaType)
 	}
 	if !d.Paren {
 		docLines(&b, "", d.Specs[0].docText(true))
@@ -691,19 +697,34 @@ func (m *Model) expect() []ExpFile {
 				if d.Iota {
 					// The values of the surviving constants must be what they were: keep the
 					// positions of removed specs with blank placeholders.
-					body.WriteString("const (\n")
+					// A group none of whose constants is left is gone altogether (its
+					// expressions may refer to purged declarations).
+					anyAlive := false
+					for _, sp := range d.Specs {
+						anyAlive = anyAlive || alive(sp.Sides[0])
+					}
+					typ := ""
+					if d.IotaType != "" {
+						typ = " " + d.IotaType
+					}
 					for i, sp := range d.Specs {
+						if !anyAlive {
+							break
+						}
 						n := "_"
 						if alive(sp.Sides[0]) {
 							n = sp.Sides[0].Ent.Name
 						}
-						if i == 0 {
-							body.WriteString("\t" + n + " = iota + 100\n")
-						} else {
+						switch {
+						case i == 0:
+							body.WriteString("const (\n\t" + n + typ + " = iota + 100\n")
+						default:
 							body.WriteString("\t" + n + "\n")
 						}
+						if i == len(d.Specs)-1 {
+							body.WriteString(")\n\n")
+						}
 					}
-					body.WriteString(")\n\n")
 				}
 			}
 			// which imports are still referenced: a use by a signature that was replaced does
